@@ -17,6 +17,7 @@ import (
 	"time"
 
 	crypto "github.com/onflow/crypto"
+	"github.com/onflow/crypto/hash"
 
 	"verif/harness/ev"
 	"verif/harness/ref/refbls"
@@ -494,6 +495,7 @@ func main() {
 	run.Set("aggregated_tuples", len(tuples))
 	run.Sample(replay{Kind: "aggregate", Algo: "BLS", Scalars: []string{ev.Hex(b32(rm1)), ev.Hex(b32(two))}, Expected: "scalar 1, public key g2", Got: "same"})
 
+	usePart(bls, []*big.Int{g1, g2, two, rm1})
 	schedPart()
 
 	hmu.Lock()
@@ -557,4 +559,122 @@ func doReplay() {
 		run.Finish()
 	}
 	run.Fatal("replay: unknown algorithm %q", rp.Algo)
+}
+
+
+// usePart: "cached consistently" over the life of the key object: after EVERY read-only use of a key pair
+// (its public key object handed to Verify, BLSVerifyPOP, SPOCKVerify in either position, aggregation,
+// removal, one-message / many-message / batch verification, Equals, encodings; the private key to Sign,
+// SPOCKProve, BLSGeneratePOP, aggregation) PublicKey() still encodes to scalar x generator - for decoded,
+// generated-like and aggregated keys; all ordered pairs of uses (the second use may undo what the first did).
+func usePart(a *algoSpec, ks []*big.Int) {
+	type use struct {
+		name string
+		do   func(sk crypto.PrivateKey, pk crypto.PublicKey, osk crypto.PrivateKey, opk crypto.PublicKey)
+	}
+	h := func() hash.Hasher { return crypto.NewExpandMsgXOFKMAC128("c12-use") }
+	msg := []byte("c12 use part")
+	uses := []use{
+		{"Verify", func(sk crypto.PrivateKey, pk crypto.PublicKey, _ crypto.PrivateKey, _ crypto.PublicKey) {
+			s, _ := sk.Sign(msg, h())
+			_, _ = pk.Verify(s, msg, h())
+		}},
+		{"BLSVerifyPOP", func(sk crypto.PrivateKey, pk crypto.PublicKey, _ crypto.PrivateKey, _ crypto.PublicKey) {
+			p, _ := crypto.BLSGeneratePOP(sk)
+			_, _ = crypto.BLSVerifyPOP(pk, p)
+		}},
+		{"SPOCKVerify(first)", func(sk crypto.PrivateKey, pk crypto.PublicKey, osk crypto.PrivateKey, opk crypto.PublicKey) {
+			p1, _ := crypto.SPOCKProve(sk, msg, h())
+			p2, _ := crypto.SPOCKProve(osk, msg, h())
+			_, _ = crypto.SPOCKVerify(pk, p1, opk, p2)
+		}},
+		{"SPOCKVerify(second)", func(sk crypto.PrivateKey, pk crypto.PublicKey, osk crypto.PrivateKey, opk crypto.PublicKey) {
+			p1, _ := crypto.SPOCKProve(sk, msg, h())
+			p2, _ := crypto.SPOCKProve(osk, msg, h())
+			_, _ = crypto.SPOCKVerify(opk, p2, pk, p1)
+		}},
+		{"SPOCKVerifyAgainstData", func(sk crypto.PrivateKey, pk crypto.PublicKey, _ crypto.PrivateKey, _ crypto.PublicKey) {
+			p1, _ := crypto.SPOCKProve(sk, msg, h())
+			_, _ = crypto.SPOCKVerifyAgainstData(pk, p1, msg, h())
+		}},
+		{"AggregateBLSPublicKeys", func(_ crypto.PrivateKey, pk crypto.PublicKey, _ crypto.PrivateKey, opk crypto.PublicKey) {
+			_, _ = crypto.AggregateBLSPublicKeys([]crypto.PublicKey{pk, opk, pk})
+		}},
+		{"RemoveBLSPublicKeys", func(_ crypto.PrivateKey, pk crypto.PublicKey, _ crypto.PrivateKey, opk crypto.PublicKey) {
+			ag, _ := crypto.AggregateBLSPublicKeys([]crypto.PublicKey{pk, opk})
+			_, _ = crypto.RemoveBLSPublicKeys(ag, []crypto.PublicKey{pk})
+			_, _ = crypto.RemoveBLSPublicKeys(pk, []crypto.PublicKey{opk})
+		}},
+		{"VerifyOneMessage+ManyMessages+Batch", func(sk crypto.PrivateKey, pk crypto.PublicKey, osk crypto.PrivateKey, opk crypto.PublicKey) {
+			s1, _ := sk.Sign(msg, h())
+			s2, _ := osk.Sign(msg, h())
+			ag, _ := crypto.AggregateBLSSignatures([]crypto.Signature{s1, s2})
+			_, _ = crypto.VerifyBLSSignatureOneMessage([]crypto.PublicKey{opk, pk}, ag, msg, h())
+			_, _ = crypto.VerifyBLSSignatureManyMessages([]crypto.PublicKey{opk, pk}, ag, [][]byte{msg, msg}, []hash.Hasher{h(), h()})
+			_, _ = crypto.BatchVerifyBLSSignaturesOneMessage([]crypto.PublicKey{opk, pk}, []crypto.Signature{s2, s1}, msg, h())
+		}},
+		{"AggregateBLSPrivateKeys+Equals+Encode", func(sk crypto.PrivateKey, pk crypto.PublicKey, osk crypto.PrivateKey, opk crypto.PublicKey) {
+			_, _ = crypto.AggregateBLSPrivateKeys([]crypto.PrivateKey{sk, osk})
+			_ = pk.Equals(opk)
+			_ = pk.EncodeCompressed()
+			_ = sk.Equals(osk)
+		}},
+	}
+	other := new(big.Int).Add(ks[0], big.NewInt(12345))
+	type job struct {
+		ki, u1, u2 int
+		agg        bool
+	}
+	var jobs []job
+	for ki := range ks {
+		for u1 := range uses {
+			for u2 := -1; u2 < len(uses); u2++ {
+				jobs = append(jobs, job{ki, u1, u2, false})
+				if ki == 0 {
+					jobs = append(jobs, job{ki, u1, u2, true})
+				}
+			}
+		}
+	}
+	ev.Par(len(jobs), func(ji int) {
+		j := jobs[ji]
+		k := ks[j.ki]
+		rp := replay{Kind: "use", Algo: a.name, Scalars: []string{ev.Hex(b32(k))}}
+		defer guard(a, &rp)
+		var sk crypto.PrivateKey
+		var err error
+		if j.agg { // k = (k - 7) + 7 as an aggregated private key
+			p1, e1 := crypto.DecodePrivateKey(a.algo, b32(new(big.Int).Mod(new(big.Int).Sub(k, big.NewInt(7)), a.order)))
+			p2, e2 := crypto.DecodePrivateKey(a.algo, b32(big.NewInt(7)))
+			if e1 != nil || e2 != nil {
+				return
+			}
+			sk, err = crypto.AggregateBLSPrivateKeys([]crypto.PrivateKey{p1, p2})
+		} else {
+			sk, err = crypto.DecodePrivateKey(a.algo, b32(k))
+		}
+		osk, err2 := crypto.DecodePrivateKey(a.algo, b32(new(big.Int).Mod(other, a.order)))
+		if err != nil || err2 != nil {
+			return
+		}
+		want := refPub(a, k)
+		seq := uses[j.u1].name
+		uses[j.u1].do(sk, sk.PublicKey(), osk, osk.PublicKey())
+		if j.u2 >= 0 {
+			seq += ", " + uses[j.u2].name
+			uses[j.u2].do(sk, sk.PublicKey(), osk, osk.PublicKey())
+		}
+		run.Add("evaluations", 1)
+		got := sk.PublicKey().Encode()
+		if matchAny(got, want) < 0 {
+			rp.Expected, rp.Got = ev.Hex(want[0]), ev.Hex(got)
+			run.Violation(fmt.Sprintf("pub:%s:changed-by-a-read-only-use:%s", a.name, uses[j.u1].name),
+				fmt.Sprintf("after the read-only uses [%s] of the key pair with scalar %x (aggregated=%v), PublicKey().Encode() is no longer scalar x generator", seq, k, j.agg), rp)
+		}
+		if matchAny(osk.PublicKey().Encode(), refPub(a, new(big.Int).Mod(other, a.order))) < 0 {
+			run.Violation(fmt.Sprintf("pub:%s:other-key-changed-by-a-read-only-use:%s", a.name, uses[j.u1].name), fmt.Sprintf("after [%s] the OTHER key pair's PublicKey() changed", seq), rp)
+		}
+		run.Distinct(fmt.Sprintf("use/%d/%v/%s", j.ki, j.agg, seq))
+	})
+	run.Set("read_only_use_histories", len(jobs))
 }
